@@ -89,6 +89,7 @@ type conn struct {
 	mu           sync.Mutex // guards the following
 	closeNotifyc chan struct{}
 	clientGone   bool
+	pipeReader   *io.PipeReader // read side of the closeNotify pipe, if any
 }
 
 func (c *conn) closeNotify() <-chan struct{} {
@@ -96,6 +97,11 @@ func (c *conn) closeNotify() <-chan struct{} {
 	defer c.mu.Unlock()
 	if c.closeNotifyc == nil {
 		c.closeNotifyc = make(chan struct{})
+		if c.clientGone {
+			// The connection has already terminated.
+			close(c.closeNotifyc)
+			return c.closeNotifyc
+		}
 
 		if msc, isMulti := c.rwc.(MultistreamConn); isMulti {
 			// MultistreamConn provides it's own error handler
@@ -105,6 +111,7 @@ func (c *conn) closeNotify() <-chan struct{} {
 			})
 		} else {
 			pr, pw := io.Pipe()
+			c.pipeReader = pr
 			c.sr.Lock()
 			readSource := c.sr.r
 			c.sr.pr = pr
@@ -130,9 +137,11 @@ func (c *conn) closeNotify() <-chan struct{} {
 func (c *conn) notifyClientGone() {
 	c.mu.Lock()
 	defer c.mu.Unlock()
-	if c.closeNotifyc != nil && !c.clientGone {
-		close(c.closeNotifyc) // unblock readers
+	if !c.clientGone {
 		c.clientGone = true
+		if c.closeNotifyc != nil {
+			close(c.closeNotifyc) // unblock readers
+		}
 	}
 }
 
@@ -184,6 +193,16 @@ func (c *conn) serve() {
 				c.rwc.RemoteAddr().String(), err, buf)
 		}
 		c.rwc.Close()
+		// The connection is gone whatever made the loop end: tell
+		// CloseNotify users (also those who asked while a Read was in
+		// progress, or who ask later) and release the pipe copier.
+		c.notifyClientGone()
+		c.mu.Lock()
+		pr := c.pipeReader
+		c.mu.Unlock()
+		if pr != nil {
+			pr.Close()
+		}
 	}()
 	if tlsConn, ok := c.rwc.(*tls.Conn); ok {
 		if err := tlsConn.Handshake(); err != nil {
